@@ -564,3 +564,68 @@ func (tb *TB) sliceOb(x *ssa.Slice) *BoundOb {
 	ob.Detail = "cannot establish " + strings.Join(miss, ", ") + " for " + short(tb.Term(x).String())
 	return ob
 }
+
+// pathFeasible: the branch conditions taken along an enumerated path are not
+// contradictory as far as integer comparisons go (loop counters start at their
+// first index, lengths are not negative). A path that is not feasible is never
+// executed and proves nothing either way.
+func (tb *TB) pathFeasible(pa *Path) bool {
+	s := &dsys{}
+	atoms := tb.pathAtoms(pa)
+	syms := map[string]bool{}
+	for _, a := range atoms {
+		if a.Kind != "cmp" {
+			continue
+		}
+		s.addAtom(a)
+		xs, _ := linear(a.X)
+		ys, _ := linear(a.Y)
+		syms[xs], syms[ys] = true, true
+	}
+	for sy := range syms {
+		if strings.HasPrefix(sy, "RangeIdx#") {
+			s.le("0", sy, 1) // counter >= -1
+		}
+		if strings.HasPrefix(sy, "len(") {
+			s.le("0", sy, 0)
+		}
+	}
+	// a negative cycle through any symbol
+	for sy := range syms {
+		if sy != "0" && s.implied(sy, sy+"'", -1) {
+			// unreachable: implied() with distinct names never holds without constraints
+			return false
+		}
+	}
+	if s.implied("0", "0'", 0) {
+		return false
+	}
+	// x <= c and x >= c together with x != c
+	for _, a := range atoms {
+		if a.Kind != "cmp" {
+			continue
+		}
+		xs, xo := linear(a.X)
+		ys, yo := linear(a.Y)
+		switch a.Op {
+		case "!=":
+			if s.implied(xs, ys, yo-xo) && s.implied(ys, xs, xo-yo) {
+				return false
+			}
+		case "<=":
+			// contradicted by an implied strict >
+			if s.implied(ys, xs, xo-yo-1) {
+				return false
+			}
+		case ">=":
+			if s.implied(xs, ys, yo-xo-1) {
+				return false
+			}
+		case "==":
+			if s.implied(ys, xs, xo-yo-1) || s.implied(xs, ys, yo-xo-1) {
+				return false
+			}
+		}
+	}
+	return true
+}
